@@ -35,6 +35,7 @@ theorem readSlice8_full (r : Reader) (old bs t : Bytes) (hne : bs ≠ []) (h : r
   have hpos : 0 < bs.length := List.length_pos_iff.mpr hne
   have : ¬ ((bs.length : Int) ≤ 0) := by omega
   simp only [this, if_false, Int.toNat_natCast]
+  rw [checkLength_ok r bs.length (bs ++ t) h (by simp)]
   exact readFull_full r bs t h hne
 
 /-! ## element loops -/
@@ -200,8 +201,9 @@ theorem rt_vec (env : Env) (rk : String → Nat) (hE : EnvWF env rk) (vs : List 
       rw [readLen_len _ vs.length _ hlen hr1]
       have hr2 := Reader.rest_adv _ _ _ hr1
       simp only
-      have c4 : ¬ ((vs.length : Int) < 0) := by omega
-      simp only [c4, if_false, Int.toNat_natCast]
+      rw [checkLength_ok _ vs.length _ hr2
+        (by have := encElems_length_ge env e vs hwt; simp only [List.length_append]; omega)]
+      simp only [Int.toNat_natCast]
       rw [decElems_rt env rk hE e he vs ih hwt fuel [] _ t hfuel hr2]
       simp [Reader.adv_adv, Nat.add_assoc]
 
@@ -242,6 +244,8 @@ theorem rt_arr (env : Env) (rk : String → Nat) (vs : List Val)
     rw [readLen_len _ vs.length _ (by omega) hr1]
     have hr2 := Reader.rest_adv _ _ _ hr1
     simp only
+    have c4 : ¬ ((vs.length : Int) > (vs.length : Int)) := by omega
+    rw [if_neg c4]
     have := decArr_rt env rk e he vs ih hwt fuel vs.length 0 [] os _ t rfl (by omega) (by omega) hro
       hfuel hr2
     simp only [List.nil_append] at this
